@@ -368,6 +368,8 @@ EXTRA_PREFIXES = [
         "<!DocType", "<!doctype a pUbLiC", "<!doctype a sYsTeM", "<!DOCTYPE a PUBLIC\"x\"", "<!DOCTYPE a PUBLIC 'x' \"y\"",
         "<!DOCTYPE a PUBLIC 'x' 'y' ", "<!DOCTYPE a SYSTEM 'y' ", "<!DOCTYPE a SYSTEM 'y'z", "<!DOCTYPE A", "<!DOCTYPE\n",
         "<!DOCTYPE a PUBLIC 'x'z", "<!DOCTYPE a PUBLIC x", "<!DOCTYPE a SYSTEM x", "<!DOCTYPE a PUBLICX",
+        "<!DOCTYPE a PUBLIC 'x\"", "<!DOCTYPE a PUBLIC \"x'", "<!DOCTYPE a SYSTEM 'y\"", "<!DOCTYPE a SYSTEM \"y'", "<!DOCTYPE a PUBLIC 'x' 'y\"",
+        "<!DOCTYPE a PUBLIC 'xx", "<!DOCTYPE a PUBLIC \"xx", "<!DOCTYPE a SYSTEM 'yy", "<!DOCTYPE a SYSTEM \"yy",
         "<a b='x' ", "<a b='x'/", "<a b \"", "<a b=c ", "</a b=c ", "<a b='x'c", "<a b=x b", "<a b b", "<a B=1 b", "<A/B",
         "<a/ b", "<a b=\"x\"/ ", "</a/", "</a b='c'", "<a\x00", "<a b\x00", "<a b=\x00", "<a b='\x00",
         "&#x1", "&#X1f", "&#12", "&#x", "&#X", "<a b=&#x1", "<a b=\"&#12", "<a b='&ampa", "<a b=&amp=", "&notin", "&notit",
